@@ -50,8 +50,16 @@ def main(inp, outp):
         def poly(t):
             return [sum(c * (t / 100.0) ** j for j, c in enumerate(coef[k])) for k in range(6)]
         dates = [T0 + timedelta(seconds=h * a) for a in range(n)]
-        svs = [StateVector(poly(h * a), d, "cartesian", "EME2000") for a, d in zip(range(n), dates)]
+        converts = any(a[0] == "convert" for a in beh["hist"])
+        if converts:
+            # conversions between frames / forms need physical states: a two-body orbit sampled every 30 s
+            from beyond.orbits import Orbit
+            ref_orb = Orbit([7.2e6, 0.02, 0.9, 1.0, 2.0, 0.7], T0, "keplerian", "EME2000", "Kepler")
+            svs = [ref_orb.propagate(d).copy(form="cartesian").as_statevector() for d in dates]
+        else:
+            svs = [StateVector(poly(h * a), d, "cartesian", "EME2000") for a, d in zip(range(n), dates)]
         eph = Ephem(svs)
+        cur_repr = ("EME2000", "cartesian")
         data = {"hist": beh["hist"], "degree": deg, "how": "one Ephem object: ephem.order = k / ephem.method = m / ephem.interpolate(date) in that order; "
                                                            "each result compared with a fresh Ephem(orbs, method=m, order=k)"}
         res["traces"] += 1
@@ -60,24 +68,59 @@ def main(inp, outp):
                 eph.order = act[1]
             elif act[0] == "method":
                 eph.method = act[1]
+            elif act[0] == "convert":
+                if act[1] != cur_repr[0]:
+                    eph.frame = act[1]
+                if act[2] != cur_repr[1]:
+                    eph.form = act[2]
+                cur_repr = (act[1], act[2])
             else:
                 q, m, k = act[1], act[2], act[3]
                 t = h * q / 2.0
                 d = T0 + timedelta(seconds=t)
-                got = np.asarray(eph.interpolate(d), float)
-                fresh = np.asarray(Ephem(svs, method=m, order=k).interpolate(d), float)
+                gsv = eph.interpolate(d)
+                got = np.asarray(gsv, float)
+                fr_, fo_ = act[4], act[5]
+                fresh_sv = Ephem([x.copy(frame=fr_, form=fo_) for x in svs], method=m, order=k).interpolate(d)
+                fresh = np.asarray(fresh_sv, float)
+                clause("an interpolated point keeps the ephemeris' current frame and form", gsv.frame.name == fr_ and gsv.form.name == fo_,
+                       "interp/settings-repr", f"after {beh['hist']}: interpolated point in {gsv.frame.name}/{gsv.form.name}, ephemeris in {fr_}/{fo_}", data)
                 res["evaluations"] += 1
                 sc = max(1.0, float(np.abs(fresh).max()))
                 clause("an interpolation uses the method and order in force when it is made, whatever was interpolated or set before",
-                       float(np.abs(got - fresh).max()) <= 1e-9 * sc and eph.order == k and eph.method == m, "interp/settings-history",
+                       float(np.abs(got - fresh).max()) <= (1e-7 if converts else 1e-9) * sc and eph.order == k and eph.method == m, "interp/settings-history",
                        f"after {beh['hist']}: interpolate at {t} s differs from a fresh Ephem(method={m}, order={k}) by {float(np.abs(got - fresh).max()):.3g} "
                        f"(getters report method={eph.method}, order={eph.order})", data)
-                if m == "lagrange" and deg < k:
+                if m == "lagrange" and deg < k and not converts:
                     want = np.asarray(poly(t), float)
                     clause("Lagrange interpolation of order k reproduces a polynomial trajectory of degree < k (after a history of settings)",
                            float(np.abs(got - want).max()) <= 1e-7 * max(1.0, float(np.abs(want).max())), "interp/settings-polynomial",
                            f"after {beh['hist']}: degree {deg} polynomial not reproduced at order {k}: off by {float(np.abs(got - want).max()):.3g}", data)
         kinds.add(("settings", len(beh["hist"]), deg))
+    # ---- accuracy on smooth orbits, in every element form and in inertial / rotating frames ---------------------------------
+    for case in job.get("accuracy", []):
+        from beyond.orbits import Orbit
+        kep, step, n, fr_, fo_ = case["kep"], case["step"], case["n"], case["frame"], case["form"]
+        ref_orb = Orbit(kep, T0, "keplerian", "EME2000", "Kepler")
+        dates = [T0 + timedelta(seconds=step * a) for a in range(n)]
+        nodes = [ref_orb.propagate(d).copy(frame=fr_, form=fo_) for d in dates]
+        eph = Ephem(nodes, order=8)
+        arr = np.array([np.asarray(x, float) for x in nodes])
+        for a in range(n - 1):
+            d = T0 + timedelta(seconds=step * (a + 0.5))
+            want = np.asarray(ref_orb.propagate(d).copy(frame="EME2000", form="cartesian"), float)
+            got = np.asarray(eph.interpolate(d).copy(frame="EME2000", form="cartesian"), float)
+            err = float(np.linalg.norm(got[:3] - want[:3]))
+            lo = min(max(0, a - 4), n - 9)            # the 8 nodes of the (edge-shifted) window, one more on each side to be safe
+            hi = lo + 10
+            wraps = fo_ != "cartesian" and bool((np.abs(np.diff(arr[lo:hi], axis=0)) > np.pi).any())
+            res["evaluations"] += 1
+            data = {"kep": kep, "step_s": step, "frame": fr_, "form": fo_, "interval": a,
+                    "how": "Ephem of a two-body orbit sampled every step_s in (frame, form), order 8; interpolate at mid-interval; compared with the propagated state"}
+            clause("for a smooth orbit sampled well below its period the interpolated position is within centimetres of the true one (5 cm)",
+                   err <= 5e-2, "interp/angle-wrap" if wraps else "interp/accuracy",
+                   f"{fr_}/{fo_} interval {a}: {err:.4g} m" + (" (an angle of the form wraps inside the interpolation window)" if wraps else ""), data)
+        kinds.add(("accuracy", fr_, fo_))
     for v in job.get("vectors", []):
         xs, order, q, verdict = v["xs"], v["order"], v["x"], v["verdict"]
         n = len(xs)
